@@ -126,7 +126,7 @@ struct ctx_t
 };
 
 // ---------------------------------------------------------------------------------------
-// text archives: one `key value...` line per field, doubles as hex floats (bit exact)
+// text archives: one `key value...` line per field, doubles with 17 significant digits (bit exact)
 // ---------------------------------------------------------------------------------------
 class writer_t
 {
@@ -166,7 +166,7 @@ private:
         else if constexpr (std::is_floating_point_v<T>)
         {
             char buf[64];
-            std::snprintf(buf, sizeof(buf), " %a", static_cast<double>(v));
+            std::snprintf(buf, sizeof(buf), " %.17g", static_cast<double>(v)); // round-trips exactly
             m_out << buf;
         }
         else if constexpr (std::is_integral_v<T>)
